@@ -221,14 +221,14 @@ def run(ctx):
                         good = ok and ln == int(m.group(1))
                         why = "slice length is %s, array length is %s (%s)" % (ln, m.group(1), w)
                 ctx.oblige("C08|unwrap|%s" % A.desc(node)[-70:], good, "unwrap can panic: %s" % why, cfg=cfg, where=H.line(node))
-        ctx.floor("slice obligations", n_ob, 10, cfg=cfg)
+        ctx.extra.setdefault("slice_obligations", {})[cfg] = n_ob
         # arithmetic: the only addition is 65 + (u8 as usize)
         adds = [x for x in H.walk(fn["body"]) if x.get("k") == "binary" and x["op"] in ("+", "-", "*")]
         for x in adds:
             l, r = A.subst(x["l"]), A.subst(x["r"])
             small = x["op"] == "+" and any(isinstance(H.lit(a), int) and H.lit(a) < 2 ** 16 for a in (l, r)) and any(b.get("k") == "cast" and b.get("from") == "u8" for b in (l, r))
             ctx.oblige("C08|arith|%s" % A.desc(x)[:60], small, "arithmetic %s may overflow" % A.desc(x)[:80], cfg=cfg, where=H.line(x), nontrivial=False)
-        ctx.floor("result sites", n_sites, 10, cfg=cfg)
+        ctx.floor("result sites", n_sites, 5, cfg=cfg)
         # 7. control byte table
         cb = F.trait_impl_fn("<ctap1::ControlByte as core::convert::TryFrom<u8>>", "try_from")
         if ctx.oblige("C08|control-byte|anchor", cb is not None, "anchor missing: TryFrom<u8> for ControlByte", cfg=cfg):
